@@ -124,6 +124,15 @@ class World:
             os.makedirs(os.path.dirname(os.path.join(self.root, name)), exist_ok=True)
             with open(os.path.join(self.root, name), "w", newline="") as f:
                 f.write(text)
+        # files reached through a symbolic link whose target lives outside the checked directory
+        self.shared = self.root + "_shared"
+        shutil.rmtree(self.shared, ignore_errors=True)
+        for name, text in (self.spec.get("links") or {}).items():
+            os.makedirs(self.shared, exist_ok=True)
+            target = os.path.join(self.shared, "real_" + name)
+            with open(target, "w", newline="") as f:
+                f.write(text)
+            os.symlink(target, os.path.join(self.root, name))
         if self.root not in sys.path:
             sys.path.insert(0, self.root)
         self.out.emit({"boot": True, "hashseed": os.environ.get("PYTHONHASHSEED"), "files": sorted(self.spec["files"])})
@@ -386,10 +395,21 @@ class World:
                 rec["before"] = {k: v for k, v in before.items() if after.get(k) != v}
                 rec["after"] = {k: v for k, v in after.items() if before.get(k) != v}
             rec["parse"] = self.parse_status(after)
+            if self.spec.get("links"):
+                rec["links"] = {name: os.path.islink(os.path.join(self.root, name)) for name in sorted(self.spec["links"])}
+                rec["link_targets_in_sync"] = {name: self._target_in_sync(name, after) for name in sorted(self.spec["links"])}
             self.out.emit(rec)
         self.end_lifetime()
         self.out.emit({"final": self.texts(), "lifetimes": self.lifetimes})
         shutil.rmtree(self.root, ignore_errors=True)
+        shutil.rmtree(self.shared, ignore_errors=True)
+
+    def _target_in_sync(self, name, texts):
+        try:
+            with open(os.path.join(self.shared, "real_" + name), newline="") as f:
+                return f.read() == texts.get(name)
+        except OSError:
+            return False
 
 
 def main(spec, out):
